@@ -103,6 +103,32 @@ Definition adjz (a : Z) (cw : bool) : Z := GetAdjacentLocation a cw.
 
 Fixpoint iter_adj (k : nat) (a : Z) (cw : bool) : Z := match k with O => a | S j => iter_adj j (adjz a cw) cw end.
 
+Lemma in_sides a : In a sides -> a = 0 \/ a = 1 \/ a = 2 \/ a = 3.
+Proof. unfold sides. cbn [In]. intros [<-|[<-|[<-|[<-|[]]]]]; vm_compute; tauto. Qed.
+
+(* the finite part, decided by computation over the 4 x 4 side codes *)
+Definition loc_group_b (a b : Z) : bool :=
+  forallb (fun cw => existsb (Z.eqb (adjz a cw)) sides) [true; false]
+  && (adjz (adjz a true) false =? a) && (adjz (adjz a false) true =? a)
+  && (iter_adj 4 a true =? a) && (iter_adj 4 a false =? a)
+  && Bool.eqb (HeadingClockwise a b) (b =? adjz a true)
+  && Bool.eqb (HeadingClockwise b a) (b =? adjz a false)
+  && Bool.eqb (AreOpposites a b) (b =? adjz (adjz a true) true)
+  && Bool.eqb (AreOpposites a b) (b =? adjz (adjz a false) false)
+  && Bool.eqb (AreOpposites a b) (AreOpposites b a)
+  && (Z.b2z (a =? b) + Z.b2z (HeadingClockwise a b) + Z.b2z (HeadingClockwise b a) + Z.b2z (AreOpposites a b) =? 1)
+  && forallb (fun cw => existsb (fun k => iter_adj k a cw =? b) [0; 1; 2; 3]%nat) [true; false]
+  && (AreOpposites a b || (a =? b) || ((adjz a (HeadingClockwise a b)) =? b)).
+
+Lemma loc_group_all : forallb (fun a => forallb (loc_group_b a) sides) sides = true.
+Proof. vm_compute. reflexivity. Qed.
+
+Lemma loc_group_ab a b : In a sides -> In b sides -> loc_group_b a b = true.
+Proof.
+  intros Ha Hb. pose proof loc_group_all as H. rewrite forallb_forall in H. specialize (H a Ha).
+  rewrite forallb_forall in H. apply H, Hb.
+Qed.
+
 Theorem loc_group a b :
   In a sides -> In b sides ->
   (* adjacent locations are sides, the two directions are inverse, four steps close the cycle *)
@@ -115,27 +141,32 @@ Theorem loc_group a b :
   /\ (AreOpposites a b = true <-> b = adjz (adjz a false) false)
   /\ AreOpposites a b = AreOpposites b a
   (* exactly one of: equal, one step clockwise, one step counter-clockwise, opposite *)
-  /\ ((a = b /\ HeadingClockwise a b = false /\ HeadingClockwise b a = false /\ AreOpposites a b = false)
-      \/ (a <> b /\ HeadingClockwise a b = true /\ HeadingClockwise b a = false /\ AreOpposites a b = false)
-      \/ (a <> b /\ HeadingClockwise a b = false /\ HeadingClockwise b a = true /\ AreOpposites a b = false)
-      \/ (a <> b /\ HeadingClockwise a b = false /\ HeadingClockwise b a = false /\ AreOpposites a b = true))
+  /\ Z.b2z (a =? b) + Z.b2z (HeadingClockwise a b) + Z.b2z (HeadingClockwise b a) + Z.b2z (AreOpposites a b) = 1
   (* walking from a in either direction reaches b after at most 3 steps: the loops `do { .. } while (prev != loc)` end *)
   /\ (forall cw, exists k, (k <= 3)%nat /\ iter_adj k a cw = b)
   (* when IsClockwise does not look at the points (prev, curr not opposite) it walks the short way round *)
-  /\ (forall p q m, AreOpposites a b = false -> a <> b -> iter_adj 1 a (IsClockwise a b p q m) = b).
+  /\ (forall p q m, AreOpposites a b = false -> a <> b -> adjz a (IsClockwise a b p q m) = b).
 Proof.
-  unfold sides. cbn [In]. intros Ha Hb.
-  destruct Ha as [<-|[<-|[<-|[<-|[]]]]]; destruct Hb as [<-|[<-|[<-|[<-|[]]]]];
-    (repeat split;
-     try (intros cw; destruct cw; vm_compute; tauto);
-     try (vm_compute; tauto);
-     try (vm_compute; intros; discriminate);
-     try (vm_compute; intros; lia);
-     try (vm_compute; intuition (try discriminate; try lia));
-     try (intros cw; destruct cw;
-          first [exists 0%nat; split; [lia|reflexivity]|exists 1%nat; split; [lia|reflexivity]
-                |exists 2%nat; split; [lia|reflexivity]|exists 3%nat; split; [lia|reflexivity]]);
-     try (intros p q m Ho Hn; first [discriminate Ho|contradiction Hn; reflexivity|unfold IsClockwise; rewrite Ho; vm_compute; reflexivity])).
+  intros Ha Hb. pose proof (loc_group_ab a b Ha Hb) as H. unfold loc_group_b in H.
+  repeat (apply andb_true_iff in H; let H' := fresh "H" in destruct H as [H H']).
+  repeat match goal with X : Bool.eqb _ _ = true |- _ => apply Bool.eqb_prop in X end.
+  repeat match goal with X : (_ =? _) = true |- _ => apply Z.eqb_eq in X end.
+  split; [|split; [assumption|split; [assumption|split; [|split; [|split; [|split; [|split; [|split; [assumption|split; [assumption|split]]]]]]]]]].
+  - assert (Hin : forall x, existsb (Z.eqb x) sides = true -> In x sides).
+    { intros x Hx. apply existsb_exists in Hx. destruct Hx as (y & Hy & E). apply Z.eqb_eq in E. rewrite E. exact Hy. }
+    intros cw. destruct cw; apply Hin; [assumption|].
+    match goal with X : existsb _ sides && true = true |- _ => rewrite andb_true_r in X; exact X end.
+  - intros cw. destruct cw; assumption.
+  - match goal with X : HeadingClockwise a b = _ |- _ => rewrite X end. apply Z.eqb_eq.
+  - match goal with X : HeadingClockwise b a = _ |- _ => rewrite X end. apply Z.eqb_eq.
+  - match goal with X : AreOpposites a b = (b =? adjz (adjz a true) true) |- _ => rewrite X end. apply Z.eqb_eq.
+  - match goal with X : AreOpposites a b = (b =? adjz (adjz a false) false) |- _ => rewrite X end. apply Z.eqb_eq.
+  - intros cw. match goal with X : forallb _ [true; false] = true |- _ => rewrite forallb_forall in X; specialize (X cw ltac:(destruct cw; cbn; auto));
+      apply existsb_exists in X; destruct X as (k & Hk & E) end.
+    apply Z.eqb_eq in E. exists k. split; [cbn [In] in Hk; lia|exact E].
+  - intros p q m Ho Hn. unfold IsClockwise. rewrite Ho.
+    match goal with X : AreOpposites a b || (a =? b) || _ = true |- _ => rewrite Ho in X; cbn [orb] in X;
+      apply orb_true_iff in X; destruct X as [X|X]; apply Z.eqb_eq in X; [contradiction|exact X] end.
 Qed.
 
 (* from Inside (the value start_locs_/prev can hold) one step leads onto the cycle of sides *)
@@ -162,10 +193,13 @@ Proof.
   | context [if ?c then _ else _] => destruct c eqn:?
   end;
   try discriminate;
-  inversion H; subst; (split; [vm_compute; tauto|]);
+  inversion H; subst;
   repeat match goal with E : (_ =? _) = true |- _ => apply Z.eqb_eq in E; subst end;
-  cbn [side_of fst snd Z.eqb Location_Left Location_Top Location_Right Location_Bottom];
-  eexists; eassumption.
+  (split; [vm_compute; tauto|]);
+  lazy [side_of fst snd Z.eqb Pos.eqb Location_Left Location_Top Location_Right Location_Bottom];
+  match goal with
+  | E : GetSegmentIntersection _ _ ?a ?b ?i = (true, ?x) |- exists _, GetSegmentIntersection _ _ ?a ?b _ = (true, ?x) => exists i; exact E
+  end.
 Qed.
 
 (* ====================================================================== GetSegmentIntersection against a side *)
@@ -196,7 +230,7 @@ Lemma on_axis_side q a b :
   on_seg q (a, b) = true.
 Proof.
   intros Hs Hc Hb. unfold on_seg.
-  assert (cross a b q = 0) as -> by (rewrite <- (cross_rot q a b); exact Hc). cbn [Z.eqb andb].
+  assert (cross a b q = 0) as -> by (rewrite (cross_rot q a b); exact Hc). cbn [Z.eqb andb].
   unfold IsHorizontal in Hb. unfold cross in Hc.
   destruct Hb as [->|[->|Hb]]; [repeat (apply andb_true_iff; split); apply Z.leb_le; lia
                                |repeat (apply andb_true_iff; split); apply Z.leb_le; lia|].
@@ -219,7 +253,7 @@ Lemma on_general_seg q a b :
   on_seg q (a, b) = true.
 Proof.
   intros Hne Hc Hb. unfold on_seg.
-  assert (cross a b q = 0) as -> by (rewrite <- (cross_rot q a b); exact Hc). cbn [Z.eqb andb].
+  assert (cross a b q = 0) as -> by (rewrite (cross_rot q a b); exact Hc). cbn [Z.eqb andb].
   unfold IsHorizontal in Hb. unfold cross in Hc.
   destruct Hb as [->|[->|Hb]]; [repeat (apply andb_true_iff; split); apply Z.leb_le; lia
                                |repeat (apply andb_true_iff; split); apply Z.leb_le; lia|].
@@ -259,7 +293,7 @@ Proof.
     apply on_axis_side; [exact Hax|exact R1|].
     destruct (Point64_eq p1 p3) eqn:A; [left; apply pt_eq_dec_b, A|].
     destruct (Point64_eq p1 p4) eqn:B; [right; left; apply pt_eq_dec_b, B|].
-    right; right. cbn [orb] in H. destruct (IsHorizontal p3 p4); inversion H; subst; assumption. }
+    right; right. cbn [orb] in H. destruct (IsHorizontal p3 p4); inversion H; subst; first [assumption|reflexivity]. }
   destruct (cross p2 p3 p4 =? 0) eqn:R2.
   { apply Z.eqb_eq in R2.
     left. assert (q = p2) as ->.
@@ -268,7 +302,7 @@ Proof.
     apply on_axis_side; [exact Hax|exact R2|].
     destruct (Point64_eq p2 p3) eqn:A; [left; apply pt_eq_dec_b, A|].
     destruct (Point64_eq p2 p4) eqn:B; [right; left; apply pt_eq_dec_b, B|].
-    right; right. cbn [orb] in H. destruct (IsHorizontal p3 p4); inversion H; subst; assumption. }
+    right; right. cbn [orb] in H. destruct (IsHorizontal p3 p4); inversion H; subst; first [assumption|reflexivity]. }
   apply Z.eqb_neq in R1. apply Z.eqb_neq in R2.
   destruct (Bool.eqb (0 <? cross p1 p3 p4) (0 <? cross p2 p3 p4)) eqn:Sg; [discriminate|].
   assert (X12 : cross p1 p3 p4 * cross p2 p3 p4 < 0).
@@ -282,7 +316,7 @@ Proof.
     apply on_general_seg; [exact Hne|exact R3|].
     destruct (Point64_eq p3 p1) eqn:A; [left; apply pt_eq_dec_b, A|].
     destruct (Point64_eq p3 p2) eqn:B; [right; left; apply pt_eq_dec_b, B|].
-    right; right. cbn [orb] in H. destruct (IsHorizontal p1 p2); inversion H; subst; assumption. }
+    right; right. cbn [orb] in H. destruct (IsHorizontal p1 p2); inversion H; subst; first [assumption|reflexivity]. }
   destruct (cross p4 p1 p2 =? 0) eqn:R4.
   { apply Z.eqb_eq in R4.
     left. assert (q = p4) as ->.
@@ -291,7 +325,7 @@ Proof.
     apply on_general_seg; [exact Hne|exact R4|].
     destruct (Point64_eq p4 p1) eqn:A; [left; apply pt_eq_dec_b, A|].
     destruct (Point64_eq p4 p2) eqn:B; [right; left; apply pt_eq_dec_b, B|].
-    right; right. cbn [orb] in H. destruct (IsHorizontal p1 p2); inversion H; subst; assumption. }
+    right; right. cbn [orb] in H. destruct (IsHorizontal p1 p2); inversion H; subst; first [assumption|reflexivity]. }
   apply Z.eqb_neq in R3. apply Z.eqb_neq in R4.
   destruct (Bool.eqb (0 <? cross p3 p1 p2) (0 <? cross p4 p1 p2)) eqn:Sg2; [discriminate|].
   right. split.
